@@ -20,6 +20,7 @@ var (
 
 	vmDSFailAppend = -1 // index of the append request answered with 503
 	vmDSAppends    = 0
+	vmDSLostAck    = -1 // index of the append request that is carried out but answered with 502
 )
 
 var vdsIssued = regexp.MustCompile(`^([0-9]{10}|-1|)$`)
@@ -39,6 +40,12 @@ func vdsServer(name string) string {
 			vmDSAppends++
 			if i == vmDSFailAppend {
 				http.Error(w, "service unavailable", http.StatusServiceUnavailable)
+				return
+			}
+			if i == vmDSLostAck {
+				// a gateway in front of the server: the request goes through, the answer is lost
+				handler.ServeHTTP(httptest.NewRecorder(), r)
+				http.Error(w, "bad gateway", http.StatusBadGateway)
 				return
 			}
 		}
